@@ -1,13 +1,13 @@
 SPECIFICATION Spec
 CONSTANTS
-  MaxH = 10
+  MaxH = 9
   Page = 3
   TSet = {0}
   RSet = {3, 4, 5, 6, 7, 8, 9}
   RUB = TRUE
   MTB = 1
   GCP = 1
-  MaxCrash = 2
+  MaxCrash = 1
   MaxReset = 0
   Dev = {}
 INVARIANTS AbsAnswers AbsTip AbsHeights AbsReset CanRestart NoDead MemCanonical RestartTransparent DiskPages KeepsList
